@@ -515,6 +515,7 @@ fn walk_text(s: &str) -> Vec<Field> {
 
 // ====================================================================== seeds
 
+#[allow(deprecated)]
 fn ts_uid(ts: &str) -> &'static str {
     match ts {
         "ivrle" => uids::IMPLICIT_VR_LITTLE_ENDIAN,
@@ -1023,9 +1024,25 @@ fn ep_names(kind: &str) -> Vec<String> {
                 v.push(s.to_string());
             }
         }
+        // machinery self-test: one entry point per outcome the harness must be able to observe
+        "selftest" => {
+            for s in ["selftest[ok]", "selftest[err]", "selftest[panic]", "selftest[alloc]", "selftest[stack]", "selftest[spin]"] {
+                v.push(s.to_string());
+            }
+        }
         _ => panic!("kind {kind}"),
     }
     v
+}
+
+#[inline(never)]
+fn deep(n: u64) -> u64 {
+    let pad = [n; 64];
+    if n == 0 {
+        0
+    } else {
+        std::hint::black_box(deep(n - 1)) + std::hint::black_box(pad[(n % 64) as usize])
+    }
 }
 
 fn sink_dump_file(o: &Obj, fmt: dicom_dump::DumpFormat) -> bool {
@@ -1276,6 +1293,29 @@ fn run_ep(kind: &str, name: &str, inp: &[u8], scratch: &str) -> Out {
                 _ => panic!("ep {name}"),
             }
         }
+        "selftest" => match name {
+            "selftest[ok]" => Ok(true),
+            "selftest[err]" => Ok(false),
+            "selftest[panic]" => catch(|| {
+                let v: Vec<u8> = b.to_vec();
+                v[b.len() + 1] == 0
+            }),
+            "selftest[alloc]" => catch(|| {
+                let v: Vec<u8> = vec![1u8; 3usize << 30];
+                v[b.len()] == 1
+            }),
+            "selftest[stack]" => catch(|| deep(u64::MAX / 2) > 0),
+            "selftest[spin]" => catch(|| {
+                let mut x = b.len() as u64;
+                loop {
+                    x = std::hint::black_box(x.wrapping_mul(6364136223846793005).wrapping_add(1));
+                    if x == 42 {
+                        return true;
+                    }
+                }
+            }),
+            _ => panic!("ep {name}"),
+        },
         "text" => {
             use dicom_core::value::deserialize::*;
             use dicom_core::value::range::*;
@@ -1328,6 +1368,31 @@ extern "C" {
     fn kill(pid: i32, sig: i32) -> i32;
     fn _exit(code: i32) -> !;
     fn dup2(old: i32, new: i32) -> i32;
+    fn mmap(addr: *mut u8, len: usize, prot: i32, flags: i32, fd: i32, off: i64) -> *mut u8;
+}
+
+/// progress marker (case id, entry point index) in memory shared between the fork server and
+/// its child: written by the child before every execution, no system call involved
+#[derive(Clone, Copy)]
+struct Marker(*mut u64);
+unsafe impl Send for Marker {}
+unsafe impl Sync for Marker {}
+impl Marker {
+    fn new() -> Self {
+        // PROT_READ|PROT_WRITE, MAP_SHARED|MAP_ANONYMOUS
+        let p = unsafe { mmap(std::ptr::null_mut(), 4096, 3, 0x01 | 0x20, -1, 0) };
+        assert!(!p.is_null() && p as isize != -1, "mmap failed");
+        Marker(p as *mut u64)
+    }
+    fn set(&self, id: u64, ep: u64) {
+        unsafe {
+            std::ptr::write_volatile(self.0.add(1), ep);
+            std::ptr::write_volatile(self.0, id);
+        }
+    }
+    fn get(&self) -> (u64, u64) {
+        unsafe { (std::ptr::read_volatile(self.0), std::ptr::read_volatile(self.0.add(1))) }
+    }
 }
 
 fn limit_memory(bytes: u64) {
@@ -1344,22 +1409,22 @@ struct Shared {
     cases: Vec<String>,
     vseed: u64,
     scratch: String,
-    progress: String,
+    marker: Marker,
     part: String,
+    id_offset: u64,
 }
 
 /// executes cases[from-1..]; runs in the forked child
 fn worker(sh: &Shared, from: u64, skips: &Skips) {
-    use std::os::unix::fs::FileExt;
     install_hook();
-    let marker = std::fs::OpenOptions::new().create(true).write(true).truncate(false).open(&sh.progress).expect("progress file");
     let out = std::fs::OpenOptions::new().create(true).append(true).open(&sh.part).expect("out file");
-    let mut out = std::io::BufWriter::new(out);
+    let mut out = std::io::BufWriter::with_capacity(1 << 16, out);
     let mut names_cache: std::collections::HashMap<String, Vec<String>> = Default::default();
     for id in from..=sh.cases.len() as u64 {
         let case: Value = serde_json::from_str(&sh.cases[(id - 1) as usize]).expect("case json");
         let seed = &sh.seeds[j_str(&case["seed"])];
-        let input = materialise(&seed.bytes, j_arr(&case["edits"]), id, sh.vseed);
+        let gid = id + sh.id_offset;
+        let input = materialise(&seed.bytes, j_arr(&case["edits"]), gid, sh.vseed);
         let mut transport_ok = true;
         if let Some(exp) = case.get("bytes") {
             // TLC materialised the bytes itself: the driver's splice must agree (transport check)
@@ -1376,10 +1441,7 @@ fn worker(sh: &Shared, from: u64, skips: &Skips) {
                 det.push(json!({"ep": name, "outcome": o, "msg": msg, "loc": ""}));
                 continue;
             }
-            let mut m = [0u8; 16];
-            m[..8].copy_from_slice(&id.to_le_bytes());
-            m[8..].copy_from_slice(&(k as u64).to_le_bytes());
-            marker.write_at(&m, 0).expect("marker");
+            sh.marker.set(id, k as u64);
             match run_ep(&seed.kind, name, &input, &sh.scratch) {
                 Ok(true) => outs.push("ok"),
                 Ok(false) => outs.push("err"),
@@ -1390,14 +1452,14 @@ fn worker(sh: &Shared, from: u64, skips: &Skips) {
                 }
             }
         }
-        let rec = json!({"id": id, "kind": seed.kind, "outs": outs, "det": det, "transport_ok": transport_ok, "len": input.len()});
-        serde_json::to_writer(&mut out, &rec).unwrap();
-        out.write_all(b"\n").unwrap();
-        out.flush().unwrap();
+        let rec = json!({"id": gid, "kind": seed.kind, "outs": outs, "det": det, "transport_ok": transport_ok, "len": input.len()});
+        // one write per line: a line is never split by the buffer (complete lines survive a crash)
+        let mut line = serde_json::to_string(&rec).unwrap();
+        line.push('\n');
+        out.write_all(line.as_bytes()).unwrap();
     }
-    let mut m = [0xFFu8; 16];
-    m[..8].copy_from_slice(&u64::MAX.to_le_bytes());
-    marker.write_at(&m, 0).expect("marker");
+    out.flush().unwrap();
+    sh.marker.set(u64::MAX, u64::MAX);
 }
 
 // ====================================================================== parent (fork server)
@@ -1412,14 +1474,6 @@ fn cpu_ticks(pid: i32) -> u64 {
     } else {
         0
     }
-}
-
-fn read_marker(path: &str) -> Option<(u64, u64)> {
-    let b = std::fs::read(path).ok()?;
-    if b.len() < 16 {
-        return None;
-    }
-    Some((u64::from_le_bytes(b[..8].try_into().unwrap()), u64::from_le_bytes(b[8..16].try_into().unwrap())))
 }
 
 fn parent(a: &std::collections::HashMap<String, String>) {
@@ -1441,8 +1495,9 @@ fn parent(a: &std::collections::HashMap<String, String>) {
         cases: std::fs::read_to_string(&a["cases"]).expect("cases").lines().filter(|l| !l.trim().is_empty()).map(|l| l.to_string()).collect(),
         vseed: seed_from_env(),
         scratch: format!("{work}/scratch.dcm"),
-        progress: format!("{work}/progress.bin"),
+        marker: Marker::new(),
         part: format!("{work}/worker_out.ndjson"),
+        id_offset: a.get("id-offset").and_then(|s| s.parse().ok()).unwrap_or(0),
     };
     let _ = std::fs::remove_file(&sh.part);
     let ncases = sh.cases.len() as u64;
@@ -1457,7 +1512,7 @@ fn parent(a: &std::collections::HashMap<String, String>) {
     let mut n_incidents = 0usize;
     let mut cpu_total = 0u64;
     while from <= ncases {
-        std::fs::write(&sh.progress, [0u8; 16]).unwrap();
+        sh.marker.set(0, 0);
         let errf = std::fs::File::create(&errlog).unwrap();
         use std::os::fd::AsRawFd;
         let pid = unsafe { fork() };
@@ -1495,7 +1550,7 @@ fn parent(a: &std::collections::HashMap<String, String>) {
             assert!(r == 0, "waitpid failed");
             std::thread::sleep(std::time::Duration::from_micros(sleep_us));
             sleep_us = (sleep_us * 2).min(20_000);
-            let cur = read_marker(&sh.progress).unwrap_or((0, 0));
+            let cur = sh.marker.get();
             let cpu = cpu_ticks(pid);
             if cpu > 0 {
                 last_cpu = cpu;
@@ -1516,7 +1571,7 @@ fn parent(a: &std::collections::HashMap<String, String>) {
         }
         cpu_total += last_cpu;
         let exited_ok = !hung && (status & 0x7f) == 0 && ((status >> 8) & 0xff) == 0;
-        let (cid, ep) = read_marker(&sh.progress).unwrap_or((0, 0));
+        let (cid, ep) = sh.marker.get();
         if exited_ok && cid == u64::MAX {
             break;
         }
@@ -1542,9 +1597,18 @@ fn parent(a: &std::collections::HashMap<String, String>) {
         skips.insert((cid, ep as usize), (outcome.to_string(), msg.clone()));
         n_incidents += 1;
         if incidents.len() < 50 {
-            incidents.push(json!({"case": cid, "ep": ep, "outcome": outcome, "msg": msg}));
+            incidents.push(json!({"case": cid + sh.id_offset, "ep": ep, "outcome": outcome, "msg": msg}));
         }
-        from = cid;
+        // results are flushed in blocks: resume after the last complete line on disk
+        let done = {
+            let data = std::fs::read(&sh.part).unwrap_or_default();
+            let keep = data.iter().rposition(|b| *b == b'\n').map(|p| p + 1).unwrap_or(0);
+            if keep != data.len() {
+                std::fs::write(&sh.part, &data[..keep]).unwrap();
+            }
+            data[..keep].iter().filter(|b| **b == b'\n').count() as u64
+        };
+        from = (done + 1).min(cid);
         if n_incidents > max_incidents {
             println!("too many worker incidents ({n_incidents}); last {:?}", incidents.last());
             std::process::exit(3);
@@ -1553,8 +1617,11 @@ fn parent(a: &std::collections::HashMap<String, String>) {
     // assemble the trace for Trace_Malform: eps headers, then one event per case in id order
     let mut tw = NdjsonWriter::create(&a["out"]);
     let mut dw = NdjsonWriter::create(&a["details"]);
-    let kinds = ["file", "dataset", "meta", "pdu", "json", "text"];
-    for k in kinds {
+    let mut kinds = vec!["file", "dataset", "meta", "pdu", "json", "text"];
+    if sh.seeds.values().any(|s| s.kind == "selftest") {
+        kinds.push("selftest");
+    }
+    for k in kinds.iter().filter(|_| sh.id_offset == 0) {
         tw.emit(&json!({"ev": "eps", "kind": k, "names": ep_names(k)}));
     }
     let mut rep = Report::new();
@@ -1563,7 +1630,7 @@ fn parent(a: &std::collections::HashMap<String, String>) {
     let mut nontrivial = 0u64;
     let mut transport_bad = 0u64;
     let mut transport_checked = 0u64;
-    let mut next = 1u64;
+    let mut next = 1u64 + sh.id_offset;
     let mut bytes_total = 0u64;
     for rec in read_ndjson(&sh.part) {
         let id = rec["id"].as_u64().unwrap();
@@ -1583,7 +1650,7 @@ fn parent(a: &std::collections::HashMap<String, String>) {
         if has_ok && has_err {
             nontrivial += 1;
         }
-        if sh.cases[(id - 1) as usize].contains("\"bytes\":") {
+        if sh.cases[(id - 1 - sh.id_offset) as usize].contains("\"bytes\":") {
             transport_checked += 1;
         }
         if !rec["transport_ok"].as_bool().unwrap_or(true) {
@@ -1600,8 +1667,8 @@ fn parent(a: &std::collections::HashMap<String, String>) {
             dw.emit(&d);
         }
     }
-    if next != ncases + 1 {
-        rep.mismatch(json!({"what": "not every case was executed", "cases": ncases, "executed": next - 1}));
+    if next != ncases + 1 + sh.id_offset {
+        rep.mismatch(json!({"what": "not every case was executed", "cases": ncases, "executed": next - 1 - sh.id_offset}));
     }
     tw.finish();
     dw.finish();
